@@ -65,6 +65,16 @@ pub enum Kind {
     Closing,
     /// the answer carries the call's numbers under a foreign node name (documented behaviour, no verdict on delivery)
     ForeignNode,
+    /// answered once with the trace-token form of SEND (`{12, Unused, ToPid, TraceToken}`)
+    Traced,
+    /// answered once with something that is not `{rex, Result}` (tag 10i+7): 0 the bare integer, 1 `{rexx, t}`,
+    /// 2 `{rex, t, t}`, 3 `{t, rex}`, 4 `[rex, t]`
+    Shape(u8),
+    /// "answered" with a SEND that `route_message` ignores: 0 the target is an atom, 1 no payload
+    Ignored(u8),
+    /// answered once, but only after call `j` is over (causal, not timed): the reply meets whatever call `j`'s exit did
+    /// to the table
+    After(u8),
 }
 
 impl Kind {
@@ -84,6 +94,10 @@ impl Kind {
             Kind::DropAwait => "W".into(),
             Kind::Closing => "K".into(),
             Kind::ForeignNode => "F".into(),
+            Kind::Traced => "T".into(),
+            Kind::Shape(v) => format!("M{}", v),
+            Kind::Ignored(v) => format!("Z{}", v),
+            Kind::After(j) => format!("G{}", j),
         }
     }
     fn second_wave(&self) -> bool {
@@ -95,7 +109,7 @@ impl Kind {
     }
     fn timeout_ms(&self) -> u64 {
         match self {
-            Kind::Reply | Kind::Dup | Kind::DupLate => 10000,
+            Kind::Reply | Kind::Dup | Kind::DupLate | Kind::Traced | Kind::Shape(_) | Kind::After(_) => 10000,
             Kind::Race => 120,
             Kind::DropAt(4) => 150,
             Kind::DropAt(_) | Kind::DropAwait => 8000,
@@ -129,6 +143,16 @@ pub struct Scenario {
     pub long_stay: Option<(usize, u8, u32)>,
     /// the peer closes the socket as soon as it has seen this many requests (used with `long_stay`)
     pub close_after_requests: Option<usize>,
+    /// the calls go through `rpc_call_with_timeout` (which unwraps `{rex, Result}`)
+    pub wrapped: bool,
+    /// run on a multi-thread runtime (4 workers)
+    pub mt: bool,
+    /// the first `prestart` calls are made BEFORE `Node::start` (connect and rpc_call* do not ask whether the node was
+    /// started); when they are over the node is started and the other calls follow. Only kinds that end without an
+    /// immediate answer (`N`, `L`, `W`) may come first.
+    pub prestart: usize,
+    /// the creation the fake EPMD assigns at `Node::start` (1 = the placeholder creation of a node that was not started)
+    pub epmd_creation: u32,
 }
 
 pub struct Shared {
@@ -225,6 +249,15 @@ impl<F: Future<Output = String>> Drop for Tagged<F> {
     }
 }
 
+fn first_int(t: &OwnedTerm) -> Option<i64> {
+    match t {
+        OwnedTerm::Integer(n) => Some(*n),
+        OwnedTerm::Tuple(v) | OwnedTerm::List(v) => v.iter().find_map(first_int),
+        _ => None,
+    }
+}
+
+/// the tag of a reply body: `{rex, Tag}`, or the tag of one of the harness's malformed bodies (those end in 7)
 fn tag_of(t: &OwnedTerm) -> Option<i64> {
     if let OwnedTerm::Tuple(v) = t {
         if v.len() == 2 {
@@ -235,7 +268,29 @@ fn tag_of(t: &OwnedTerm) -> Option<i64> {
             }
         }
     }
-    None
+    first_int(t).filter(|n| n % 10 == 7)
+}
+
+/// the bodies of `Kind::Shape`
+pub fn shape_body(v: u8, t: i64) -> OwnedTerm {
+    let rex = || OwnedTerm::Atom(Atom::new("rex"));
+    match v {
+        0 => OwnedTerm::Integer(t),
+        1 => OwnedTerm::Tuple(vec![OwnedTerm::Atom(Atom::new("rexx")), OwnedTerm::Integer(t)]),
+        2 => OwnedTerm::Tuple(vec![rex(), OwnedTerm::Integer(t), OwnedTerm::Integer(t)]),
+        3 => OwnedTerm::Tuple(vec![OwnedTerm::Integer(t), rex()]),
+        _ => OwnedTerm::List(vec![rex(), OwnedTerm::Integer(t)]),
+    }
+}
+
+/// result of a call made through `rpc_call_with_timeout`
+fn wrapped_text(r: Result<OwnedTerm, edp_node::Error>) -> String {
+    match r {
+        Ok(OwnedTerm::Integer(n)) => format!("reply:{}", n),
+        Ok(_) => "reply:garbage".into(),
+        Err(edp_node::Error::TermConversion(_)) => "badshape".into(),
+        Err(e) => outcome_text(Err(e)),
+    }
 }
 
 fn outcome_text(r: Result<OwnedTerm, edp_node::Error>) -> String {
@@ -407,6 +462,29 @@ async fn peer_task(listener: tokio::net::TcpListener, cfg: PeerCfg, plan: PeerPl
         let base = (i as i64) * 10;
         match plan.kinds[i] {
             Kind::Reply | Kind::DupLate => peer_send(&mut pc, &sh, &plan.local_name, &p, base).await,
+            Kind::Traced => {
+                sh.push(format!("pm.0.{}.{}.{}.{}", p.id, p.serial, p.creation, base));
+                let control = OwnedTerm::Tuple(vec![OwnedTerm::Integer(12), OwnedTerm::Atom(Atom::new("")), OwnedTerm::Pid(p.clone()),
+                                                    OwnedTerm::Tuple(vec![OwnedTerm::Integer(1), OwnedTerm::Integer(2)])]);
+                let payload = OwnedTerm::Tuple(vec![OwnedTerm::Atom(Atom::new("rex")), OwnedTerm::Integer(base)]);
+                pc.send_frame(&pass_through(&control, Some(&payload))).await;
+            }
+            Kind::Shape(v) => {
+                sh.push(format!("pm.0.{}.{}.{}.{}", p.id, p.serial, p.creation, base + 7));
+                let control = OwnedTerm::Tuple(vec![OwnedTerm::Integer(2), OwnedTerm::Atom(Atom::new("")), OwnedTerm::Pid(p.clone())]);
+                pc.send_frame(&pass_through(&control, Some(&shape_body(v, base + 7)))).await;
+            }
+            Kind::Ignored(v) => {
+                sh.push("px".into());
+                let payload = OwnedTerm::Tuple(vec![OwnedTerm::Atom(Atom::new("rex")), OwnedTerm::Integer(base + 8)]);
+                if v == 0 {
+                    let control = OwnedTerm::Tuple(vec![OwnedTerm::Integer(2), OwnedTerm::Atom(Atom::new("")), OwnedTerm::Atom(Atom::new("not_a_pid"))]);
+                    pc.send_frame(&pass_through(&control, Some(&payload))).await;
+                } else {
+                    let control = OwnedTerm::Tuple(vec![OwnedTerm::Integer(2), OwnedTerm::Atom(Atom::new("")), OwnedTerm::Pid(p.clone())]);
+                    pc.send_frame(&pass_through(&control, None)).await;
+                }
+            }
             Kind::Dup => {
                 peer_send(&mut pc, &sh, &plan.local_name, &p, base).await;
                 peer_send(&mut pc, &sh, &plan.local_name, &p, base + 1).await;
@@ -449,14 +527,21 @@ async fn peer_task(listener: tokio::net::TcpListener, cfg: PeerCfg, plan: PeerPl
     }
     // D: answers that must come after the call is over (the harness tells us when it is)
     let mut late: Vec<usize> = (0..k)
-        .filter(|&i| matches!(plan.kinds[i], Kind::Late | Kind::DupLate | Kind::DropAt(_) | Kind::DropAwait) && rep.pids[i].is_some())
+        .filter(|&i| matches!(plan.kinds[i], Kind::Late | Kind::DupLate | Kind::DropAt(_) | Kind::DropAwait | Kind::After(_)) && rep.pids[i].is_some())
         .collect();
     let t1 = Instant::now();
     while !late.is_empty() && t1.elapsed() < Duration::from_millis(8000) {
         let ret = sh.returned.lock().unwrap().clone();
         let mut rest = vec![];
         for i in late {
-            if ret[i] {
+            if let Kind::After(j) = plan.kinds[i] {
+                if ret[(j as usize).min(k - 1)] {
+                    let p = rep.pids[i].clone().unwrap();
+                    peer_send(&mut pc, &sh, &plan.local_name, &p, (i as i64) * 10).await;
+                } else {
+                    rest.push(i);
+                }
+            } else if ret[i] {
                 let p = rep.pids[i].clone().unwrap();
                 peer_send(&mut pc, &sh, &plan.local_name, &p, (i as i64) * 10 + 2).await;
             } else {
@@ -518,13 +603,14 @@ async fn scenario(sc: Scenario) -> Outcome {
     let peer_name = format!("{}@127.0.0.1", short);
     let local_name = format!("c17n{}@127.0.0.1", case);
     let listener = listen_as(&epmd, &short).await;
+    *epmd.creation.lock().unwrap() = sc.epmd_creation.wrapping_sub(1);
     let mut node = Node::new(local_name.clone(), "secret");
     let mut out = Outcome { creation: 0, pids: vec![None; k], trace: vec![], outcomes: vec!["unstarted".into(); k], fin: 0,
                             proc_sent: vec![], proc_got: vec![], setup_ok: false };
-    if node.start(0).await.is_err() {
+    if sc.prestart == 0 && node.start(0).await.is_err() {
         return out;
     }
-    let node = Arc::new(node);
+    let mut node = Arc::new(node);
     out.creation = node.creation();
     let mut drop_at = vec![None; k];
     for (i, kd) in sc.kinds.iter().enumerate() {
@@ -568,18 +654,38 @@ async fn scenario(sc: Scenario) -> Outcome {
     edp_client::verif_hooks::set_yield_hook(Some(Box::new(move |name: &str| hook(&sh2, name))));
 
     let mut handles: Vec<Option<tokio::task::JoinHandle<String>>> = (0..k).map(|_| None).collect();
-    let start_wave = |wave2: bool, handles: &mut Vec<Option<tokio::task::JoinHandle<String>>>| {
+    let start_wave = |node: &Arc<Node>, wave: u8, handles: &mut Vec<Option<tokio::task::JoinHandle<String>>>| {
         for i in 0..k {
-            if sc.kinds[i].second_wave() != wave2 {
+            let w = if i < sc.prestart { 0 } else if sc.kinds[i].second_wave() { 2 } else { 1 };
+            if w != wave {
                 continue;
             }
             let n = node.clone();
             let target = if sc.kinds[i] == Kind::NoConn { "nobody@127.0.0.1".to_string() } else { peer_name.clone() };
             let to = Duration::from_millis(sc.kinds[i].timeout_ms());
-            let fut = async move { outcome_text(n.rpc_call_raw_with_timeout(&target, "c17", &format!("f{}", i), vec![], to).await) };
+            let wrapped = sc.wrapped;
+            let (go_tx, go_rx) = tokio::sync::oneshot::channel::<()>();
+            let fut = async move {
+                // not before the harness holds the abort handle of this task
+                let _ = go_rx.await;
+                if wrapped {
+                    wrapped_text(n.rpc_call_with_timeout(&target, "c17", &format!("f{}", i), vec![], to).await)
+                } else {
+                    outcome_text(n.rpc_call_raw_with_timeout(&target, "c17", &format!("f{}", i), vec![], to).await)
+                }
+            };
             let h = tokio::spawn(Tagged { idx: i, fut: Some(Box::pin(fut)), sh: sh.clone() });
             sh.abort.lock().unwrap()[i] = Some(h.abort_handle());
             handles[i] = Some(h);
+            let _ = go_tx.send(());
+            if sc.mt {
+                // the events are logged after the fact: keep the order of the `bi` events the order of the allocations
+                let t = Instant::now();
+                let mark = format!("bi.{}.", i);
+                while !sh.log.lock().unwrap().iter().any(|e| e.starts_with(&mark)) && t.elapsed() < Duration::from_millis(2000) {
+                    std::thread::yield_now();
+                }
+            }
         }
     };
     let collect = |i: usize, r: Result<Result<String, tokio::task::JoinError>, tokio::time::error::Elapsed>| -> String {
@@ -591,19 +697,49 @@ async fn scenario(sc: Scenario) -> Outcome {
             Err(_) => "hang".into(),
         }
     };
-    start_wave(false, &mut handles);
-    // calls dropped while they wait for the reply
-    for i in 0..k {
-        if sc.kinds[i] == Kind::DropAwait {
-            let sh3 = sh.clone();
-            tokio::spawn(async move {
-                tokio::time::sleep(Duration::from_millis(60)).await;
-                if let Some(h) = sh3.abort.lock().unwrap()[i].as_ref() {
-                    h.abort();
-                }
-            });
+    let drop_waiters = |lo: usize, hi: usize| {
+        for i in lo..hi {
+            if sc.kinds[i] == Kind::DropAwait {
+                let sh3 = sh.clone();
+                tokio::spawn(async move {
+                    tokio::time::sleep(Duration::from_millis(60)).await;
+                    if let Some(h) = sh3.abort.lock().unwrap()[i].as_ref() {
+                        h.abort();
+                    }
+                });
+            }
         }
+    };
+    if sc.prestart > 0 {
+        // calls on a node that was not started yet; then `Node::start`
+        start_wave(&node, 0, &mut handles);
+        drop_waiters(0, sc.prestart);
+        for i in 0..sc.prestart {
+            if let Some(h) = handles[i].take() {
+                out.outcomes[i] = collect(i, tokio::time::timeout(Duration::from_millis(30000), h).await);
+            }
+        }
+        *sh.node.lock().unwrap() = None;
+        let t = Instant::now();
+        let mut started = false;
+        while t.elapsed() < Duration::from_millis(3000) {
+            if let Some(n) = Arc::get_mut(&mut node) {
+                started = n.start(0).await.is_ok();
+                break;
+            }
+            tokio::time::sleep(Duration::from_millis(2)).await;
+        }
+        if !started {
+            out.setup_ok = false;
+            edp_client::verif_hooks::set_yield_hook(None);
+            peer.abort();
+            return out;
+        }
+        sh.push(format!("st.{}", node.creation()));
+        *sh.node.lock().unwrap() = Some(node.clone());
     }
+    start_wave(&node, 1, &mut handles);
+    drop_waiters(sc.prestart, k);
     for i in 0..k {
         if let Some(h) = handles[i].take() {
             out.outcomes[i] = collect(i, tokio::time::timeout(Duration::from_millis(30000), h).await);
@@ -624,9 +760,12 @@ async fn scenario(sc: Scenario) -> Outcome {
                 while node.connections().contains_key(&peer_name) && t.elapsed() < Duration::from_millis(3000) {
                     tokio::time::sleep(Duration::from_millis(3)).await;
                 }
+                if !node.connections().contains_key(&peer_name) {
+                    sh.push("rs".into());
+                }
             }
         }
-        start_wave(true, &mut handles);
+        start_wave(&node, 2, &mut handles);
         for i in 0..k {
             if let Some(h) = handles[i].take() {
                 out.outcomes[i] = collect(i, tokio::time::timeout(Duration::from_millis(30000), h).await);
@@ -641,6 +780,9 @@ async fn scenario(sc: Scenario) -> Outcome {
     }
     tokio::time::sleep(Duration::from_millis(5)).await;
     tokio::time::sleep(Duration::from_millis(5)).await;
+    if !node.connections().contains_key(&peer_name) && !sh.log.lock().unwrap().iter().any(|e| e == "rs") {
+        sh.push("rs".into());
+    }
     let fin = node.pending_rpc_count();
     sh.push(format!("fin.{}", fin));
     edp_client::verif_hooks::set_yield_hook(None);
@@ -668,7 +810,11 @@ pub fn run_scenario_within(sc: &Scenario, limit: Duration) -> Option<Outcome> {
     let (tx, rx) = std::sync::mpsc::channel();
     let sc2 = sc.clone();
     std::thread::spawn(move || {
-        let rt = tokio::runtime::Builder::new_current_thread().enable_all().build().unwrap();
+        let rt = if sc2.mt {
+            tokio::runtime::Builder::new_multi_thread().worker_threads(4).enable_all().build().unwrap()
+        } else {
+            tokio::runtime::Builder::new_current_thread().enable_all().build().unwrap()
+        };
         let o = rt.block_on(scenario(sc2));
         let _ = tx.send(o);
     });
@@ -705,7 +851,7 @@ fn emit(ctx: &mut Ctx, sc: &Scenario, o: &Option<Outcome>) {
     }
     let odd = o.fin != 0
         || o.outcomes.iter().zip(&sc.kinds).any(|(oc, kd)| {
-            oc == "hang" || oc == "cancelled" || oc == "panic" || (matches!(kd, Kind::Reply | Kind::Dup | Kind::DupLate) && !oc.starts_with("reply:"))
+            oc == "hang" || oc == "cancelled" || oc == "panic" || (matches!(kd, Kind::Reply | Kind::Dup | Kind::DupLate | Kind::Traced | Kind::After(_)) && !oc.starts_with("reply:"))
         });
     if odd {
         SUSPICIOUS.fetch_add(1, std::sync::atomic::Ordering::SeqCst);
@@ -730,11 +876,40 @@ fn emit(ctx: &mut Ctx, sc: &Scenario, o: &Option<Outcome>) {
         ctx.prop("gen", &format!("c17spec {} {} {} {} {}", script.replace('/', " "), outs, o.fin, list(&o.proc_sent), list(&o.proc_got)), "ok");
         return;
     }
-    let req = format!("c17trace {} {} {}", o.creation, list(&o.pids.iter().map(pid_text).collect::<Vec<_>>()), o.trace.join(","));
+    let word = match (sc.wrapped, sc.mt) {
+        (false, false) => "c17trace",
+        (false, true) => "c17mt",
+        (true, false) => "c17wtrace",
+        (true, true) => "c17wmt",
+    };
+    if sc.mt {
+        ctx.add("mt_traces_validated", 1);
+        // how often a call saw the table without its own entry when its timer had fired: the receiver's `remove` had
+        // happened and its `send` came too late (the two steps observed apart)
+        let pms: Vec<String> = o.trace.iter().filter(|e| e.starts_with("pm.")).cloned().collect();
+        let mut k = 0;
+        for (pos, e) in o.trace.iter().enumerate() {
+            if e.starts_with("rt.") {
+                if let Some(pm) = pms.get(k) {
+                    let f: Vec<&str> = pm.split('.').collect();
+                    let key = format!("{}.{}.{}", f[2], f[3], f[4]);
+                    if let Some(i) = o.pids.iter().position(|p| pid_text(p) == key) {
+                        let to = o.trace.iter().position(|x| x.starts_with(&format!("to.{}.", i)));
+                        if matches!(to, Some(t) if t > pos) && o.outcomes[i] == "timeout" {
+                            ctx.count("mt_routed_before_timer_yet_timeout");
+                        }
+                    }
+                }
+                k += 1;
+            }
+        }
+    }
+    let spec_word = if sc.wrapped { "c17wspec" } else { "c17spec" };
+    let req = format!("{} {} {} {}", word, o.creation, list(&o.pids.iter().map(pid_text).collect::<Vec<_>>()), o.trace.join(","));
     ctx.tie("trace", &req, &format!("ok out={} fin={} proc={}", outs, o.fin, list(&o.proc_got)));
     // failure class: scenarios in which a call future is dropped by its owner are told apart from the rest
     let class = if sc.kinds.iter().any(|k| matches!(k, Kind::DropAt(_) | Kind::DropAwait)) { "c17-with-dropped-call" } else { "gen" };
-    ctx.prop(class, &format!("c17spec {} {} {} {} {}", script.replace('/', " "), outs, o.fin, list(&o.proc_sent), list(&o.proc_got)), "ok");
+    ctx.prop(class, &format!("{} {} {} {} {} {}", spec_word, script.replace('/', " "), outs, o.fin, list(&o.proc_sent), list(&o.proc_got)), "ok");
 }
 
 fn perms(n: usize) -> Vec<Vec<usize>> {
@@ -757,7 +932,7 @@ fn base(ctx: &mut Ctx, kinds: Vec<Kind>) -> Scenario {
     let mut order: Vec<usize> = (0..k).collect();
     ctx.rng.shuffle(&mut order);
     Scenario { kinds, order, ending: Ending::Keep, yield_seed: ctx.rng.next(), max_yields: 3, proc_msgs: 0, long_stay: None,
-               close_after_requests: None }
+               close_after_requests: None, wrapped: false, mt: false, prestart: 0, epmd_creation: 8 }
 }
 
 fn random_kind(ctx: &mut Ctx) -> Kind {
@@ -772,7 +947,12 @@ fn random_kind(ctx: &mut Ctx) -> Kind {
         15 => Kind::NoConn,
         16 | 17 => Kind::DropAt(ctx.rng.below(5) as u8),
         18 => Kind::DropAwait,
-        _ => Kind::Reply,
+        _ => match ctx.rng.below(4) {
+            0 => Kind::Traced,
+            1 => Kind::Shape(ctx.rng.below(5) as u8),
+            2 => Kind::Ignored(ctx.rng.below(2) as u8),
+            _ => Kind::Reply,
+        },
     }
 }
 
@@ -889,6 +1069,373 @@ pub fn run(ctx: &mut Ctx) {
             _ => {}
         }
         go(ctx, sc, "random_scenarios");
+    }
+    // 9. replies in the trace-token form of SEND, replies that are not `{rex, Result}`, SENDs the router ignores
+    let odd = [Kind::Traced, Kind::Shape(0), Kind::Shape(1), Kind::Shape(2), Kind::Shape(3), Kind::Shape(4), Kind::Ignored(0), Kind::Ignored(1)];
+    for kd in odd {
+        let pos = ctx.rng.below(3) as usize;
+        let mut kinds = vec![Kind::Reply; 3];
+        kinds[pos] = kd;
+        let sc = base(ctx, kinds);
+        go(ctx, sc, "reply_form_scenarios");
+    }
+    // 10. the same calls through `rpc_call_with_timeout` (which unwraps `{rex, Result}`): every reply form and exit path
+    let wrapped = [Kind::Reply, Kind::Traced, Kind::Shape(0), Kind::Shape(1), Kind::Shape(2), Kind::Shape(3), Kind::Shape(4), Kind::Dup,
+                   Kind::Never, Kind::Late, Kind::Race, Kind::NoConn, Kind::DropAt(3), Kind::DropAwait, Kind::Ignored(1), Kind::Unknown(1)];
+    for kd in wrapped {
+        let pos = ctx.rng.below(3) as usize;
+        let mut kinds = vec![Kind::Reply, Kind::Shape(ctx.rng.below(5) as u8), Kind::Reply];
+        kinds[pos] = kd;
+        let mut sc = base(ctx, kinds);
+        sc.wrapped = true;
+        go(ctx, sc, "wrapped_scenarios");
+    }
+    for _ in 0..ctx.n(2, 6) {
+        let mut sc = base(ctx, vec![Kind::Reply, Kind::Never, Kind::Shape(1), Kind::SendErr, Kind::AfterClose]);
+        sc.wrapped = true;
+        sc.ending = if ctx.rng.chance(1, 2) { Ending::LocalClose } else { Ending::PeerCloses };
+        if sc.ending == Ending::LocalClose { sc.kinds[4] = Kind::SendErr } else { sc.kinds[3] = Kind::AfterClose }
+        go(ctx, sc, "wrapped_scenarios");
+    }
+    // 11. a multi-thread runtime (4 workers): the receiver task, the timers and the calls really run in parallel; the
+    //     traces are validated against the model without the sizes sampled at the points
+    for p in perms(3) {
+        let mut sc = base(ctx, vec![Kind::Reply; 3]);
+        sc.order = p;
+        sc.mt = true;
+        go(ctx, sc, "mt_scenarios");
+    }
+    let each_mt = [Kind::Dup, Kind::DupLate, Kind::Never, Kind::Late, Kind::Unknown(0), Kind::Race, Kind::NoConn, Kind::DropAt(0), Kind::DropAt(1),
+                   Kind::DropAt(2), Kind::DropAt(3), Kind::DropAt(4), Kind::DropAwait, Kind::Traced, Kind::Shape(2), Kind::Ignored(0)];
+    for kd in each_mt {
+        let pos = ctx.rng.below(3) as usize;
+        let mut kinds = vec![Kind::Reply; 3];
+        kinds[pos] = kd;
+        let mut sc = base(ctx, kinds);
+        sc.mt = true;
+        go(ctx, sc, "mt_scenarios");
+    }
+    for _ in 0..ctx.n(3, 40) {
+        // several calls answered about when their timers fire
+        let mut sc = base(ctx, vec![Kind::Race, Kind::Race, Kind::Reply, Kind::Race, Kind::Race]);
+        sc.mt = true;
+        sc.max_yields = ctx.rng.range(0, 3) as u32;
+        go(ctx, sc, "mt_race_scenarios");
+    }
+    for _ in 0..ctx.n(2, 6) {
+        let mut sc = base(ctx, vec![Kind::Reply, Kind::Late, Kind::AfterClose, Kind::AfterClose]);
+        sc.ending = Ending::PeerCloses;
+        sc.mt = true;
+        go(ctx, sc, "mt_scenarios");
+    }
+    for _ in 0..ctx.n(10, 150) {
+        let k = ctx.rng.range(2, 7) as usize;
+        let kinds: Vec<Kind> = (0..k).map(|_| random_kind(ctx)).collect();
+        let mut sc = base(ctx, kinds);
+        sc.max_yields = ctx.rng.range(0, 4) as u32;
+        sc.mt = true;
+        sc.wrapped = ctx.rng.chance(1, 3);
+        if ctx.rng.chance(1, 3) {
+            sc.proc_msgs = ctx.rng.range(1, 3) as u32;
+        }
+        go(ctx, sc, "mt_random_scenarios");
+    }
+    // 13. calls before and after `Node::start`: a node that was not started hands out reply pids with the placeholder
+    //     creation 1; EPMD then assigns 1 again, 2, or 7; late replies to the early calls arrive while later calls wait
+    for c in [1u32, 2, 7] {
+        for (v, kinds, pre) in [(0, vec![Kind::Late, Kind::Never, Kind::Reply], 1usize),
+                                (1, vec![Kind::Late, Kind::Never, Kind::Late, Kind::After(2), Kind::Reply, Kind::Never], 2),
+                                (2, vec![Kind::DropAwait, Kind::Late, Kind::After(1), Kind::Never, Kind::Dup], 2),
+                                (3, vec![Kind::Never, Kind::Late, Kind::Never, Kind::Late, Kind::Never, Kind::After(0), Kind::After(1)], 3)] {
+            let mut sc = base(ctx, kinds);
+            sc.prestart = pre;
+            sc.epmd_creation = c;
+            sc.wrapped = v == 2 && c == 2;
+            sc.mt = v == 1 && c != 1;
+            go(ctx, sc, "start_scenarios");
+        }
+    }
+    for _ in 0..ctx.n(6, 80) {
+        let pre = ctx.rng.range(1, 3) as usize;
+        let k = ctx.rng.range(1, 4) as usize;
+        let mut kinds: Vec<Kind> = (0..pre).map(|_| *ctx.rng.pick(&[Kind::Late, Kind::Late, Kind::Never, Kind::DropAwait])).collect();
+        for _ in 0..k {
+            let kd = match ctx.rng.below(8) {
+                0 | 1 => Kind::Never,
+                2 => Kind::Late,
+                3 | 4 => Kind::After(ctx.rng.below(pre as u64) as u8),
+                5 => Kind::Race,
+                _ => Kind::Reply,
+            };
+            kinds.push(kd);
+        }
+        let mut sc = base(ctx, kinds);
+        sc.prestart = pre;
+        sc.epmd_creation = *ctx.rng.pick(&[1u32, 1, 2, 7, 8]);
+        sc.mt = ctx.rng.chance(1, 3);
+        sc.wrapped = ctx.rng.chance(1, 4);
+        go(ctx, sc, "start_random_scenarios");
+    }
+    // 14. many calls at once, so that the key texts of different calls are prefixes of one another (1 / 10, 11, 12):
+    //     the exit of the call with the short key (timeout, drop, no connection) must leave the others alone
+    for kd in [Kind::Never, Kind::DropAwait, Kind::DropAt(3), Kind::NoConn] {
+        let mut kinds = vec![Kind::Reply; 13];
+        kinds[0] = kd;
+        for i in 9..13 {
+            kinds[i] = Kind::After(0);
+        }
+        let mut sc = base(ctx, kinds);
+        sc.mt = kd == Kind::DropAwait;
+        go(ctx, sc, "key_prefix_scenarios");
+    }
+    // 12. term level: `into_rex_response`, the request frames of the wrappers and of the `erlang_*` calls
+    term_ties(ctx);
+}
+
+/// a reply pid and the whole frame of a request
+fn parse_any_request(frame: &[u8]) -> Option<ExternalPid> {
+    if frame.first() != Some(&112) {
+        return None;
+    }
+    let (_control, rest) = erltf::decoder::decode_with_trailing(&frame[1..]).ok()?;
+    let (payload, _) = erltf::decoder::decode_with_trailing(rest).ok()?;
+    let OwnedTerm::Tuple(v) = payload else { return None };
+    let OwnedTerm::Pid(p) = v.first()? else { return None };
+    Some(p.clone())
+}
+
+#[derive(Clone)]
+enum CallSpec {
+    /// `rpc_call_raw(m, f, args)`
+    Raw(String, String, Vec<OwnedTerm>),
+    /// `rpc_call_raw_with_timeout(m, f, args, 5 s)`
+    RawT(String, String, Vec<OwnedTerm>),
+    /// `rpc_call(m, f, args)`
+    Call(String, String, Vec<OwnedTerm>),
+    /// `rpc_call_with_timeout(m, f, args, 5 s)`
+    CallT(String, String, Vec<OwnedTerm>),
+    /// an `erlang_*` function with its parameters in the driver's convention
+    Erl(&'static str, Vec<OwnedTerm>),
+}
+
+/// Runs the calls one after the other against a peer that answers request `j` with `bodies[j]`.
+/// Returns per call the frame the peer read and the call's result.
+async fn request_session(calls: Vec<CallSpec>, bodies: Vec<OwnedTerm>) -> Option<Vec<(Vec<u8>, Result<OwnedTerm, String>)>> {
+    let case = CASE.fetch_add(1, std::sync::atomic::Ordering::SeqCst) + 1;
+    let epmd = FakeEpmd::start().await;
+    let short = format!("c17q{}", case);
+    let peer_name = format!("{}@127.0.0.1", short);
+    let listener = listen_as(&epmd, &short).await;
+    let mut node = Node::new(format!("c17m{}@127.0.0.1", case), "secret");
+    node.start(0).await.ok()?;
+    let frames_seen: Arc<Mutex<Vec<Vec<u8>>>> = Arc::new(Mutex::new(vec![]));
+    let fs = frames_seen.clone();
+    let cfg = PeerCfg::new(&peer_name, "secret");
+    let n_calls = calls.len();
+    let peer = tokio::spawn(async move {
+        let Some(mut pc) = accept_and_handshake(&listener, &cfg).await else { return };
+        let mut frames = Frames { buf: vec![], closed: false };
+        let mut j = 0;
+        let t0 = Instant::now();
+        while j < n_calls && t0.elapsed() < Duration::from_secs(20) && !frames.closed {
+            if let Some(f) = frames.next(&mut pc, Duration::from_millis(50)).await {
+                if let Some(p) = parse_any_request(&f) {
+                    fs.lock().unwrap().push(f.clone());
+                    let control = OwnedTerm::Tuple(vec![OwnedTerm::Integer(2), OwnedTerm::Atom(Atom::new("")), OwnedTerm::Pid(p)]);
+                    pc.send_frame(&pass_through(&control, Some(&bodies[j]))).await;
+                    j += 1;
+                }
+            }
+        }
+        // keep the socket open until the harness is done
+        tokio::time::sleep(Duration::from_secs(30)).await;
+    });
+    if node.connect(peer_name.clone()).await.is_err() {
+        peer.abort();
+        return None;
+    }
+    let to = Duration::from_secs(5);
+    let mut out = vec![];
+    for (j, c) in calls.iter().enumerate() {
+        let r = match c.clone() {
+            CallSpec::Raw(m, f, a) => node.rpc_call_raw(&peer_name, &m, &f, a).await,
+            CallSpec::RawT(m, f, a) => node.rpc_call_raw_with_timeout(&peer_name, &m, &f, a, to).await,
+            CallSpec::Call(m, f, a) => node.rpc_call(&peer_name, &m, &f, a).await,
+            CallSpec::CallT(m, f, a) => node.rpc_call_with_timeout(&peer_name, &m, &f, a, to).await,
+            CallSpec::Erl(name, ps) => {
+                let s = |t: &OwnedTerm| match t {
+                    OwnedTerm::Binary(b) => String::from_utf8_lossy(b).to_string(),
+                    _ => String::new(),
+                };
+                match name {
+                    "erlang_system_info" => node.erlang_system_info(&peer_name, &s(&ps[0])).await,
+                    "erlang_statistics" => node.erlang_statistics(&peer_name, &s(&ps[0])).await,
+                    "erlang_memory" => node.erlang_memory(&peer_name).await,
+                    "erlang_processes" => node.erlang_processes(&peer_name).await,
+                    "erlang_process_info" => {
+                        let items = match &ps[1] {
+                            OwnedTerm::List(l) => l.iter().filter_map(|x| if let OwnedTerm::Atom(a) = x { Some(a.clone()) } else { None }).collect(),
+                            _ => vec![],
+                        };
+                        node.erlang_process_info(&peer_name, ps[0].clone(), items).await
+                    }
+                    _ => node.erlang_list_to_pid(&peer_name, &s(&ps[0])).await,
+                }
+            }
+        };
+        let r = r.map_err(|e| match e {
+            edp_node::Error::TermConversion(_) => "conversion".to_string(),
+            edp_node::Error::RpcTimeout(_) => "timeout".to_string(),
+            _ => "other".to_string(),
+        });
+        let frame = frames_seen.lock().unwrap().get(j).cloned().unwrap_or_default();
+        out.push((frame, r));
+    }
+    let left = node.pending_rpc_count();
+    peer.abort();
+    if left != 0 {
+        return None;
+    }
+    Some(out)
+}
+
+/// candidates for `into_rex_response`: pairs with `rex`, near misses, everything else
+fn rex_candidate(r: &mut Rng, cfg: &crate::tgen::Cfg) -> (OwnedTerm, &'static str) {
+    let x = crate::tgen::gen_term(r, cfg, 1);
+    let rex = |n: &str| OwnedTerm::Atom(Atom::new(n));
+    match r.below(12) {
+        0..=2 => (OwnedTerm::Tuple(vec![rex("rex"), x]), "rex_pair"),
+        3 => (OwnedTerm::Tuple(vec![rex(*r.pick(&["rexx", "re", "Rex", "", "ok", "error"])), x]), "other_atom_pair"),
+        4 => (OwnedTerm::Tuple(vec![rex("rex")]), "rex_1_tuple"),
+        5 => (OwnedTerm::Tuple(vec![rex("rex"), x.clone(), x]), "rex_3_tuple"),
+        6 => (OwnedTerm::Tuple(vec![x, rex("rex")]), "rex_second"),
+        7 => (OwnedTerm::Tuple(vec![OwnedTerm::Binary(b"rex".to_vec().into()), x]), "rex_as_binary"),
+        8 => (OwnedTerm::List(vec![rex("rex"), x]), "rex_list"),
+        9 => (OwnedTerm::Tuple(vec![]), "empty_tuple"),
+        10 => (OwnedTerm::Tuple(vec![OwnedTerm::Tuple(vec![rex("rex"), x.clone()]), x]), "nested"),
+        _ => (x, "any_term"),
+    }
+}
+
+fn term_ties(ctx: &mut Ctx) {
+    use crate::canon::{hex, pid_text as ptext, term_text};
+    let cfg = crate::tgen::Cfg { max_depth: 3, wf: true, maps: true, local_ids: false, huge: false, funs: false };
+    for _ in 0..ctx.n(80, 1500) {
+        let (t, class) = rex_candidate(&mut ctx.rng, &cfg);
+        ctx.count(&format!("rex_{}", class));
+        let t2 = t.clone();
+        let r = std::panic::catch_unwind(move || t2.into_rex_response());
+        let res = match r {
+            Ok(Ok(v)) => format!("ok {}", term_text(&v)),
+            Ok(Err(_)) => "err".to_string(),
+            Err(_) => "panic".to_string(),
+        };
+        ctx.tie("rex", &format!("c17rex {}", term_text(&t)), &res);
+    }
+    // request frames and results of the wrappers, against a peer that answers at once
+    let acfg = crate::tgen::Cfg { max_depth: 2, wf: true, maps: false, local_ids: false, huge: false, funs: false };
+    let mut calls = vec![];
+    let mut bodies = vec![];
+    let names = ["erlang", "c17", "m", "lists", "a_rather_long_module_name_0123456789"];
+    for j in 0..ctx.n(16, 120) {
+        let m = ctx.rng.pick(&names).to_string();
+        let f = ctx.rng.pick(&["f", "node", "system_info", "x1"]).to_string();
+        let n = ctx.rng.below(4) as usize;
+        let args: Vec<OwnedTerm> = (0..n).map(|_| crate::tgen::gen_term(&mut ctx.rng, &acfg, 1)).collect();
+        calls.push(match j % 4 {
+            0 => CallSpec::Raw(m, f, args),
+            1 => CallSpec::RawT(m, f, args),
+            2 => CallSpec::Call(m, f, args),
+            _ => CallSpec::CallT(m, f, args),
+        });
+        bodies.push(rex_candidate(&mut ctx.rng, &acfg).0);
+    }
+    let item = |s: &str| OwnedTerm::Binary(s.as_bytes().to_vec().into());
+    let a_pid = OwnedTerm::Pid(ExternalPid::new(Atom::new("x@127.0.0.1"), 77, 3, 2));
+    let erl: Vec<(&'static str, Vec<OwnedTerm>)> = vec![
+        ("erlang_system_info", vec![item("otp_release")]),
+        ("erlang_system_info", vec![item("process_count")]),
+        ("erlang_statistics", vec![item("reductions")]),
+        ("erlang_memory", vec![]),
+        ("erlang_processes", vec![]),
+        ("erlang_process_info", vec![a_pid.clone(), OwnedTerm::List(vec![OwnedTerm::Atom(Atom::new("memory")), OwnedTerm::Atom(Atom::new("status"))])]),
+        ("erlang_process_info", vec![a_pid, OwnedTerm::List(vec![])]),
+        ("erlang_list_to_pid", vec![item("<0.77.0>")]),
+        ("erlang_list_to_pid", vec![item("")]),
+        ("erlang_list_to_pid", vec![item("<0.\u{e9}\u{4e16}.0>")]),
+    ];
+    for (name, ps) in &erl {
+        calls.push(CallSpec::Erl(name, ps.clone()));
+        bodies.push(rex_candidate(&mut ctx.rng, &acfg).0);
+    }
+    let (tx, rx) = std::sync::mpsc::channel();
+    let (c2, b2) = (calls.clone(), bodies.clone());
+    std::thread::spawn(move || {
+        let rt = tokio::runtime::Builder::new_current_thread().enable_all().build().unwrap();
+        let o = rt.block_on(request_session(c2, b2));
+        let _ = tx.send(o);
+    });
+    let Some(Some(res)) = rx.recv_timeout(Duration::from_secs(90)).ok() else {
+        ctx.fail("c17-request-session", "the sequential calls against an answering peer did not all return with an empty table");
+        return;
+    };
+    for (j, (frame, r)) in res.iter().enumerate() {
+        let Some(pid) = parse_any_request(frame) else {
+            ctx.fail("c17-request-session", &format!("call {} wrote no request the peer could read", j));
+            continue;
+        };
+        let pid_t = ptext(&pid);
+        let (wrapped, req) = match &calls[j] {
+            CallSpec::Raw(m, f, a) | CallSpec::RawT(m, f, a) =>
+                (false, format!("c17req {} {} {} {}", pid_t, hex(m.as_bytes()), hex(f.as_bytes()), term_text(&OwnedTerm::List(a.clone())))),
+            CallSpec::Call(m, f, a) | CallSpec::CallT(m, f, a) =>
+                (true, format!("c17req {} {} {} {}", pid_t, hex(m.as_bytes()), hex(f.as_bytes()), term_text(&OwnedTerm::List(a.clone())))),
+            CallSpec::Erl(name, ps) => (true, format!("c17erl {} {} {}", name, pid_t, term_text(&OwnedTerm::List(ps.clone())))),
+        };
+        ctx.count(match &calls[j] {
+            CallSpec::Raw(..) => "req_rpc_call_raw",
+            CallSpec::RawT(..) => "req_rpc_call_raw_with_timeout",
+            CallSpec::Call(..) => "req_rpc_call",
+            CallSpec::CallT(..) => "req_rpc_call_with_timeout",
+            CallSpec::Erl(..) => "req_erlang_fn",
+        });
+        ctx.tie("req", &req, &hex(frame));
+        // the request as an independent reader of the wire sees it, against what the call was asked to do
+        match &calls[j] {
+            CallSpec::Raw(m, f, a) | CallSpec::RawT(m, f, a) | CallSpec::Call(m, f, a) | CallSpec::CallT(m, f, a) => ctx.prop(
+                "gen", &format!("c17reqspec {} {} {} {} {}", hex(frame), pid_t, hex(m.as_bytes()), hex(f.as_bytes()), term_text(&OwnedTerm::List(a.clone()))), "ok"),
+            CallSpec::Erl(name, ps) => ctx.prop("gen", &format!("c17erlspec {} {} {} {}", hex(frame), name, pid_t, term_text(&OwnedTerm::List(ps.clone()))), "ok"),
+        }
+        // the result: the second element of a `{rex, Result}` body for the wrappers, the body itself for the raw calls
+        let want = match (&bodies[j], wrapped) {
+            (b, false) => Some(b.clone()),
+            (OwnedTerm::Tuple(v), true) if v.len() == 2 && matches!(&v[0], OwnedTerm::Atom(a) if a.as_str() == "rex") => Some(v[1].clone()),
+            _ => None,
+        };
+        let want = want.map(|w| erltf::encode(&w).ok().and_then(|b| erltf::decode(&b).ok()));
+        let fine = match (&want, r) {
+            (Some(Some(w)), Ok(v)) => w == v,
+            (None, Err(e)) => e == "conversion",
+            (Some(None), _) => true,
+            _ => false,
+        };
+        if !fine {
+            ctx.fail("gen", &format!("c17-request-session call {} ({}) answered with {} returned {:?}", j, req, term_text(&bodies[j]),
+                                     r.as_ref().map(term_text)));
+        }
+        // what the node saw of the body: the body after one trip through the codec
+        let seen = erltf::encode(&bodies[j]).ok().and_then(|b| erltf::decode(&b).ok());
+        let Some(seen) = seen else { continue };
+        let res = match r {
+            Ok(v) => format!("ok {}", term_text(v)),
+            Err(e) => format!("err:{}", e),
+        };
+        if wrapped {
+            ctx.tie("wrap", &format!("c17wrap ok {}", term_text(&seen)), &res);
+        } else {
+            // the raw call returns the body as it is
+            ctx.tie("raw", &format!("c17rawbody {}", term_text(&seen)), &res);
+        }
     }
 }
 
